@@ -269,6 +269,8 @@ class PathSearch:
                 v = env.get(pl[0])
                 if v is not None and v[0] == "ref" and v[1] >= 0:
                     return ("ref", v[1], tuple(v[2]) + tuple(pl[2:]))
+                if v is not None and v[0] == "ref" and v[1] == -1 and len(pl) == 2:
+                    return v                      # a reborrow of a promoted constant
                 return None
             return ("ref", pl[0], tuple(pl[1:]))
         if r == "discr":
